@@ -205,7 +205,8 @@ pub const AMOUNTS: [u128; 22] = [
 pub const LIFETIMES: [u64; 6] = [600, 601, 3600, 86_400, 1_209_599, 1_209_600];
 pub const BAD_LIFETIMES: [u64; 9] = [0, 1, 599, 1_209_601, u64::MAX, (1 << 32) + 600, (1 << 32) + 1_209_600, (1 << 16) + 1_209_600 + 65_536 * 20, (1 << 63) + 3600];
 pub const BPS_OK: [u64; 6] = [10, 11, 50, 100, 299, 300];
-pub const BPS_BAD: [u64; 5] = [0, 9, 301, 5000, u64::MAX];
+/// out-of-range rates, including the ones a narrowing cast (`as u8/u16/u32`) would fold into 10..=300
+pub const BPS_BAD: [u64; 11] = [0, 9, 301, 5000, u64::MAX, (1 << 16) + 100, (1 << 16) + 10, (3 << 16) + 300, (1 << 32) + 10, u64::MAX - 65_535 + 250, (1 << 8) + 300];
 pub const MAX_SAFE_INT: u64 = 9_007_199_254_740_990;
 
 pub struct Gen<'w> {
